@@ -7,7 +7,7 @@
      writeTypedColumnarRaw         -> write_rec           (schema-change flush in the handler goroutine,
                                                            append, size-triggered extraction)
      flushOnSchemaChangeLocked /
-     flushBufferLocked             -> the [Some bf] branch of write_rec, flush_all
+     flushBufferLocked             -> the [Some bf] branch of write_rec, the EFlush case of step
      mergeBatches                  -> merge               (type assertion panic)
      flushPartitionedData          -> flush_partitioned   (single/multi hour, sort, applyPermutation)
      getSchema / inferSchema /
